@@ -230,8 +230,13 @@ class LLE(Equilibrium, phases='lL'):
                 and (np.abs(self._z_mol - z_mol) < self.composition_cache_tolerance).all()
             )
             if use_cache:
+                try: 
+                    phi = phase_fraction(z_mol, self._K, self._phi)
+                except (ZeroDivisionError, FloatingPointError): 
+                    use_cache = False # Remembered coefficients are degenerate; solve instead
+            if use_cache:
                 K = self._K 
-                self._phi = phi = phase_fraction(z_mol, K, self._phi)
+                self._phi = phi
                 if phi >= 1.:
                     mol_l = mol
                     mol_L = 0. * mol
